@@ -277,7 +277,8 @@ class TextLinesCursor(Cursor):
         return res
 
     def _matchre_fast(self, pattern: str | re.Pattern | None) -> bool:
-        if not (match := self._scanre(pattern)):
+        if not (match := self._scanre(pattern)) or match.end() == match.start():
+            # an empty match eats nothing: reporting it as progress would loop forever
             return False
         self.goto(match.end())
         return True
